@@ -155,7 +155,7 @@ def stack (As : List (NDArray α)) : Except NDErr (NDArray α) :=
   match As with
   | [] => .error .value
   | A :: rest =>
-    if rest.all (fun B => decide (B.shape = A.shape)) then
+    if rest.all (fun B => B.shape == A.shape) then
       ofOpt ((optAll ((List.range (prod A.shape)).flatMap (fun j => As.map (fun B => B.data[j]?)))).map
         (fun d => ⟨A.shape ++ [As.length], d⟩))
     else .error .value
@@ -172,23 +172,35 @@ inductive Key where
   | mask (mshape : List Nat) (bits : List Bool)
   deriving Repr, DecidableEq
 
+/-- bounds `slice.indices` clamps to: `[0, n]` for a positive step, `[-1, n-1]` for a negative one -/
+def sliceLower (st : Int) : Int := if st < 0 then -1 else 0
+def sliceUpper (n : Nat) (st : Int) : Int := if st < 0 then (n : Int) - 1 else n
+
+/-- a given start/stop: negative values count from the end, then clamp -/
+def sliceClamp (n : Nat) (st x : Int) : Int :=
+  if x < 0 then max (x + n) (sliceLower st) else min x (sliceUpper n st)
+
+def sliceStart (n : Nat) (st : Int) : Option Int → Int
+  | none => if st < 0 then sliceUpper n st else sliceLower st
+  | some x => sliceClamp n st x
+
+def sliceStop (n : Nat) (st : Int) : Option Int → Int
+  | none => if st < 0 then sliceLower st else sliceUpper n st
+  | some x => sliceClamp n st x
+
+/-- `len(range(a, b, st))` -/
+def sliceCount (a b st : Int) : Nat :=
+  if st > 0 then (if a < b then ((b - a - 1) / st + 1).toNat else 0)
+  else (if b < a then ((a - b - 1) / (-st) + 1).toNat else 0)
+
 /-- `range(*slice(start, stop, step).indices(n))` -/
 def sliceIndices (n : Nat) (start stop step : Option Int) : Except NDErr (List Nat) :=
   let st : Int := step.getD 1
   if st = 0 then .error .value
   else
-    let lower : Int := if st < 0 then -1 else 0
-    let upper : Int := if st < 0 then (n : Int) - 1 else n
-    let clamp (x : Int) : Int := if x < 0 then max (x + n) lower else min x upper
-    let a : Int := match start with
-      | none => if st < 0 then upper else lower
-      | some x => clamp x
-    let b : Int := match stop with
-      | none => if st < 0 then lower else upper
-      | some x => clamp x
-    let cnt : Nat := if st > 0 then (if a < b then ((b - a - 1) / st + 1).toNat else 0)
-                     else (if b < a then ((a - b - 1) / (-st) + 1).toNat else 0)
-    .ok ((List.range cnt).map (fun k => (a + Int.ofNat k * st).toNat))
+    let a := sliceStart n st start
+    let b := sliceStop n st stop
+    .ok ((List.range (sliceCount a b st)).map (fun k => (a + Int.ofNat k * st).toNat))
 
 /-- indices selected on one axis of length `n`, and whether the axis survives -/
 def axisSel (n : Nat) : KeyItem → Except NDErr (List Nat × Bool)
@@ -264,7 +276,7 @@ structure Obj (ε : Type) where
   cls : Cls
   arr : NDArray (ε × Bool)
   md : Meta
-  deriving Repr
+  deriving Repr, DecidableEq
 
 inductive Op (ε : Type) where
   | getitem (k : NDArray.Key)
